@@ -10,6 +10,8 @@ package bytecode
 // funcvalue_word(v): the data word of a reflect.Value holding a func, i.e. the address of the
 // func value (closure object), NOT the code pointer.
 //@ uninterp func funcvalue_word(v reflect.Value) uintptr
+// trampoline_ptr(t): code address of the origin placeholder passed by the user (func or pointer to func).
+//@ uninterp func trampoline_ptr(t interface{}) uintptr
 
 //@ trusted func GetFuncSize
 //@   props C14 C03 C16
@@ -26,3 +28,15 @@ package bytecode
 //@   pure
 //@ trusted func PrintInstf
 //@   pure
+
+//@ trusted func GetInnerFunc
+//@   props C06
+//@   assigns nothing
+//@   ensures user_space_address: result0 < 0x7fffffff00000000
+
+//@ trusted func GetTrampolinePtr
+//@   props C03
+//@   assigns nothing
+//@   ensures user_space_address: result0 < 0x7fffffff00000000
+//@   ensures nil_is_zero: trampoline == nil ==> result0 == 0
+//@   ensures function_of_value: result0 == trampoline_ptr(trampoline)
